@@ -186,6 +186,30 @@ def check_fold_impl(rep, f, trait, meth, opname, unit, rule, required):
         return
     ok = False
     detail = None
+    if t[0] == "leaf" and tag(t[1]) == "after" and tag(t[1][1]) == "call" and "Iterator::for_each" in t[1][1][1] and len(t[1][1]) == 4:
+        # `let mut total = unit; iter.for_each(|x| total = total op x); total`: a left fold written with a captured accumulator
+        fe = t[1][1]
+        it, clo = fe[2], fe[3]
+        detail = {"iter": it, "closure": clo}
+        if it is P(0) and tag(clo) == "agg" and clo[1][0] == "closure" and len(clo[2]) == 1 and is_unit(clo[2][0]):
+            cb = f.by_key.get(clo[1][1])
+            if cb is not None:
+                ACC = mk("param", 99)
+                def setup(ex, st):
+                    loc = st.alloc(); st.store[loc] = ACC
+                    ex.param_locs[99] = loc
+                    return [mk("agg", ("closure", cb.key), (mk("ref", loc, ()),)), None]
+                try:
+                    ex = vg.Exec(f, vg.Policy(f, "op", inline_extra=extra, keep=H.primitive_idents(f), inline_private=True))
+                    ct = ex.run_body(cb, setup=setup)
+                    eff = dict(ct[2]) if ct[0] == "leaf" else {}
+                    nv = eff.get(99)
+                    ok = tag(nv) == "call" and nv[1].startswith(opfull) and nv[2] is ACC and nv[3] is P(1) and set(eff) == {99}
+                except vg.Unsupported:
+                    ok = False
+        rep.check(ok, rule, inst, key, "Iterator::%s is not a left fold with %s from %s (for_each form): %s" % (meth, sym, unit, vg.show(t)[:300]),
+                  where=H.where(b), detail=detail)
+        return
     if t[0] == "leaf":
         v = t[1]
         if tag(v) == "call" and "fold" in v[1] and len(v) == 5:
